@@ -340,7 +340,7 @@ def find_ops(cj, pred, out=None, path=()):
     return out
 
 
-def run_fence(owner, method, deviations=None, after=False):
+def run_fence(owner, method, deviations=None, after=False, owner_raises=False):
     """-> (outcome, scheduler).  `after`: the straggler only starts once the owner call has returned."""
     fb = realrun.load_fb()
     FB = fb.FileBuilder
@@ -376,15 +376,21 @@ def run_fence(owner, method, deviations=None, after=False):
             if owner == 'build_file':
                 with open(a[0], 'w') as fh:
                     fh.write('o')
+            if owner_raises:
+                raise Boom('owner')
             return 1
 
         def rootf(b):
-            if owner == 'root':
-                owner_fn(b)
-            elif owner == 'subbuild':
-                b.subbuild('owner', owner_fn)
-            else:
-                b.build_file(P('ownerfile'), 'owner', owner_fn)
+            try:
+                if owner == 'root':
+                    owner_fn(b)
+                elif owner == 'subbuild':
+                    b.subbuild('owner', owner_fn)
+                else:
+                    b.build_file(P('ownerfile'), 'owner', owner_fn)
+            except Boom:
+                if owner == 'root':
+                    raise
             st['gate'] = True
             if owner != 'root':
                 s.join([st['tid']])
